@@ -40,7 +40,7 @@ def holdsFor (prop : String) (env : Env) (sc : Scenario) (obs : List Obs) : Bool
   | "C03" => C03.holds env sc obs
   | "C04" => C04.holds env sc obs
   | "C18" => C18.holds sc obs
-  | "C19" => C19.holdsStrict sc obs
+  | "C19" => C19.holdsMarked sc obs
   | "C11" => C11.holds obs
   | _ => true
 
@@ -140,6 +140,7 @@ structure RouteParse where
   mws    : List (Nat × Nat × Bool) := []     -- node, id, verdict
   raw    : Bytes := []
   noroot : Bool := false
+  soft   : Bool := false
 
 def parseRouteToks (toks : List String) : RouteParse :=
   toks.foldl (fun r t =>
@@ -150,6 +151,7 @@ def parseRouteToks (toks : List String) : RouteParse :=
     | ["req", x] => { r with raw := unhex x }
     | ["noroot"] => { r with noroot := true }
     | ["unsetlate"] => { r with noroot := true }     -- the handler in force at headersParsed time decides
+    | ["soft"] => { r with soft := true }             -- refusing middleware write their own response and do not close
     | _ => r) {}
 
 instance : Inhabited Node := ⟨Node.mk 0 [] [] Subs.nil false⟩
@@ -177,13 +179,13 @@ def evalRoute (p : Pending) (glob : Oracle) (obsToks : List String) : String :=
   let p16 := (ora.misc.findSome? fun f => match f with | ["p16", x] => some (unhex16 x) | _ => none).getD []
   let sc : RouteScn := { root := root, matcher := matcherOf ora, raw := r.raw, p16 := p16 }
   let env := ora.env
-  let mlog := (Scenario.run env sc.scenario).log
+  let mlog := (Scenario.run env (if r.soft then sc.softScenario else sc.scenario)).log
   let ilog := (obsToks.filter (· != "end")).filterMap parseObs
   let badTok := obsToks.filter (fun t => t != "end" && (parseObs t).isNone)
   let keepR (o : Obs) : Bool := match o with | .del => false | .dc => false | .hp => false | _ => true
   let pm := mergeW (mlog.filter keepR)
   let pi := mergeW (ilog.filter keepR)
-  let hold (l : List Obs) : Bool := if p.prop == "C06" then C06.holds env sc l else C05.holds env sc l
+  let hold (l : List Obs) : Bool := if p.prop == "C06" then C06.holds env sc l else if p.prop == "C11" then C11.holds l else C05.holds env sc l
   let eq := pm == pi
   let hm := hold mlog
   let hi := hold ilog
@@ -256,8 +258,8 @@ def evalCopier (p : Pending) (obsToks : List String) : String :=
   let pm := mergeX mlog
   let pi := mergeX ilog
   let eq := pm == pi
-  let hm := C14.holds cfg evs mlog
-  let hi := C14.holds cfg evs ilog
+  let hm := C14.holdsAll cfg evs mlog
+  let hi := C14.holdsAll cfg evs ilog
   let b (x : Bool) := if x then "1" else "0"
   let head := s!"RES {p.prop} {p.id} eq={b eq} hm={b hm} hi={b hi} miss={b (!badTok.isEmpty)} crash={b (obsToks.contains "crash")}"
   if eq && hi && hm && badTok.isEmpty then head else head ++ " | " ++ showLog pm ++ " | " ++ showLog pi
@@ -315,7 +317,8 @@ def evalFs (p : Pending) (glob : Oracle) (obsToks : List String) : String :=
   let complete := snap.isSome && (evs.filter fun e => match e with | .turn => true | _ => false).length ≥ 4 &&
                   !(evs.any fun e => match e with | .peerClose => true | _ => false)
   let hold (l : List Obs) : Bool :=
-    if p.prop == "C08" then C08.holds fe path rangeHdr complete l else C07.holds fe path complete l
+    if p.prop == "C08" then C08.holds fe path rangeHdr complete l else if p.prop == "C11" then C11.holds l
+    else C07.holds fe path complete l
   let eq := pm == pi
   let hm := hold mlog
   let hi := hold ilog
@@ -411,7 +414,7 @@ def evalProxy (p : Pending) (glob : Oracle) (obsToks : List String) : String :=
     | .del => false | .dc => false | .hp => false | .rr => false | .rd _ => false | .rcf => false | .bw _ => false | _ => true
   let pm := mergeW (mlog.filter keepR)
   let pi := mergeW (ilog.filter keepR)
-  let hold (l : List Obs) : Bool := if p.prop == "C13" then C13.holds env cfg evs l else C12.holds env cfg evs l
+  let hold (l : List Obs) : Bool := if p.prop == "C13" then C13.holds env cfg evs l else if p.prop == "C11" then C11.holds l else C12.holds env cfg evs l
   let eq := pm == pi
   let hm := hold mlog
   let hi := hold ilog
